@@ -617,6 +617,29 @@ func (g *FuncGen) constInt(env *Env, e Expr) int64 {
 
 func (g *FuncGen) trField(env *Env, x *EField) Val {
 	c := g.c
+	// pkg.Const
+	if id, ok := x.X.(*EIdent); ok {
+		if _, isVar := g.lookupName(env, id.Name); !isVar {
+			var cands []*types.Package
+			if env.pkg != nil {
+				cands = append(cands, env.pkg.Imports()...)
+			}
+			for _, p := range g.prog.TypesPkgs {
+				cands = append(cands, p)
+				cands = append(cands, p.Imports()...)
+			}
+			for _, p := range cands {
+				if p.Name() == id.Name {
+					if obj := p.Scope().Lookup(x.Name); obj != nil {
+						if cst, ok := obj.(*types.Const); ok {
+							return g.constObj(cst)
+						}
+					}
+				}
+			}
+			g.unsup("unknown name %q in spec (stale-contract?)", id.Name)
+		}
+	}
 	base := g.tr(env, x.X)
 	if base.GT == nil {
 		g.unsup("field %s of untyped value in %s", x.Name, x)
